@@ -52,7 +52,7 @@ def ASSIGNED_LOOPS(k, header, kw, body=None):
 UNIT = Unit(
     name="U-DCELIVE",
     properties=["C02"],
-    rules=[("strip", "ast::"), "opt_map", "let_chain_rev", "opt_is_some_and", "opt_is_none_or", "iter_any"],
+    rules=[("strip", "ast::"), "opt_map", "opt_filter", "let_chain_rev", "opt_is_some_and", "opt_is_none_or", "iter_any"],
     describe="go::dce::dce_block_with_live, the liveness bookkeeping behind `no local variable is left unused`: every name in the live set is READ by a statement "
              "that was kept (at any depth) or is live on exit of the block — so every declaration that is kept (with its initialiser because its name is live; bare because "
              "a KEPT assignment needs it, and an assignment is kept only for a live variable) is read by a statement that follows it; the live-in set handed back to "
